@@ -63,6 +63,18 @@ def _gen_once(r, force_2d):
     if r.random() < 0.2 and n > 6:
         at = int(r.integers(2, n))
         st[at:] += _f(r.uniform(0.3, 2.0))
+    stamping = 'right'
+    u = r.random()
+    if u < 0.1:
+        # increments stamped with the START of their interval: the first stamp equals the
+        # time of the initial state
+        stamping = 'left'
+    elif u < 0.2 and n > 4:
+        # a repeated IMU time stamp: one increment with dt == 0
+        at = int(r.integers(1, n))
+        st[at + 1:] = st[at:-1].copy()
+        st[at + 1] = st[at]
+        stamping = 'dup'
     wa = False if force_2d else bool(r.random() < 0.5)
     size = SIZES[int(r.integers(len(SIZES)))]
     perturb = dict(seed=int(r.integers(2 ** 31)),
@@ -87,7 +99,10 @@ def _gen_once(r, force_2d):
         elif u < 0.65:
             if left > 0:
                 if r.random() < 0.3:
-                    ops.append(['predict_scaled', _f(r.uniform(0.0, 1.0))])
+                    # the feedback filter predicts over a fraction of the next increment;
+                    # the fraction is exactly 0 for a measurement on an IMU epoch
+                    ops.append(['predict_scaled',
+                                0.0 if r.random() < 0.25 else _f(r.uniform(0.0, 1.0))])
                 else:
                     ops.append(['predict'])
             else:
@@ -114,7 +129,7 @@ def _gen_once(r, force_2d):
               imu=dict(type=['rate', 'increment'][int(r.integers(2))],
                        stamps=[float(x) for x in st]),
               perturb=perturb, initial=init,
-              knobs=dict(with_altitude=wa, initial_size=size,
+              knobs=dict(with_altitude=wa, initial_size=size, stamping=stamping,
                          observe=bool(r.random() < 0.5)), ops=ops)
     try:
         m = materialise(sc)
@@ -137,6 +152,8 @@ def materialise(sc):
     dv = inc[DV_COLS].values + p['dv'] * g.standard_normal((len(inc), 3))
     dv[:, 2] += p['vertical'] * dt[:, 0]
     inc[DV_COLS] = dv
+    if sc['knobs'].get('stamping') == 'left':
+        inc.index = pd.Index(stamps[:-1], name=inc.index.name)
     init = pd.Series(sc['initial'], index=TRAJECTORY_COLS, name=float(stamps[0]))
     return dict(increments=inc, initial=init)
 
@@ -209,7 +226,8 @@ def execute(sc, want='C02'):
     log = []
     sig = []
     stats = dict(ops=0, grow=0, grow_in_predict=0, straddle=0, set_pva=0, predicts=0,
-                 empty_chunks=0, rows=0, keep_att=0, blind=int(not observe), long_chunk=0)
+                 empty_chunks=0, rows=0, keep_att=0, blind=int(not observe), long_chunk=0,
+                 stamping=sc['knobs'].get('stamping', 'right'), zero_predict=0)
     init = m['initial']
     init_copy = init.copy()
     alt_ref = float(init['alt'])
@@ -309,6 +327,8 @@ def execute(sc, want='C02'):
                     if name == 'predict_scaled':
                         row = float(op[1]) * row
                         row.name = inc.index[model.applied]
+                        if float(op[1]) == 0.0:
+                            stats['zero_predict'] += 1
                     row_copy = row.copy()
                     ret = it.predict(row)
                     log.append(ret)
